@@ -73,6 +73,23 @@ func manyMessages() []*descriptorpb.FileDescriptorProto {
 	return []*descriptorpb.FileDescriptorProto{f.P}
 }
 
+// unusedImport: app.proto imports annot.proto (another Go package) and lib.proto (same proto package, other Go
+// package) but uses types of neither; annot2.proto is imported publicly. Subsets of file_to_generate decide
+// whether the imported files are co-generated.
+func unusedImport() []*descriptorpb.FileDescriptorProto {
+	an := schema.NewFile("imp/annot.proto", "imp.annot", schema.GenRoot+"imp/annot")
+	am := an.Msg("Marker")
+	am.Field("note", 1, schema.S(schema.String))
+	lib := schema.NewFile("imp/lib.proto", "imp.lib", schema.GenRoot+"imp/lib")
+	lm := lib.Msg("Helper")
+	lm.Field("v", 1, schema.S(schema.Int32))
+	app := schema.NewFile("imp/app.proto", "imp.app", schema.GenRoot+"imp/app", "imp/annot.proto", "imp/lib.proto")
+	m := app.Msg("App")
+	m.Field("id", 1, schema.S(schema.Int64))
+	m.Field("helper", 2, schema.M(lm.Full())) // lib is used, annot is not
+	return []*descriptorpb.FileDescriptorProto{an.P, lib.P, app.P}
+}
+
 func testpbFiles() []*descriptorpb.FileDescriptorProto {
 	var out []*descriptorpb.FileDescriptorProto
 	for _, n := range []string{"1.proto", "2.proto", "3.proto"} {
@@ -245,6 +262,7 @@ func runC13(h *hz.H) {
 		{"mx", schema.MX(), ""},
 		{"testpb", testpbFiles(), "paths=source_relative"},
 		{"many", manyMessages(), ""},
+		{"unused-import", unusedImport(), ""},
 	}
 	if h.Thorough() || h.Replay != "" {
 		sets = append(sets, reqSet{"mx-fast-only", schema.MX(), "features=fast"})
